@@ -5,6 +5,7 @@ import (
 	"go/constant"
 	"go/token"
 	"go/types"
+	"regexp"
 	"strings"
 
 	"golang.org/x/tools/go/packages"
@@ -182,3 +183,114 @@ func constByName(p *Prog, pkg, name string) *int64 {
 func constantInt64(c *types.Const) (int64, bool) {
 	return constant.Int64Val(constant.ToInt(c.Val()))
 }
+
+// wrapsWithW: ev is errV itself, or fmt.Errorf with a %w verb and errV among its arguments.
+func wrapsWithW(ev, errV ssa.Value) bool {
+	if ev == errV {
+		return true
+	}
+	c, ok := ev.(*ssa.Call)
+	if !ok || !isCallTo(&c.Call, "fmt.Errorf") || len(c.Call.Args) < 2 {
+		return false
+	}
+	format, _ := constString(c.Call.Args[0])
+	return strings.Contains(format, "%w") && sliceDependsOn(c.Call.Args[1], errV)
+}
+
+// sliceMustContain: on every path that runs through block `from` (where v is computed),
+// slice value s contains v. Phi edges whose predecessor cannot be reached from `from`
+// belong to paths on which v was not computed and are not constrained.
+func sliceMustContain(s ssa.Value, v ssa.Value, from *ssa.BasicBlock) bool {
+	reach := reachableFrom(from)
+	reach[from] = true
+	memo := map[ssa.Value]bool{}
+	var rec, rec1 func(x ssa.Value) bool
+	elemStores := func(refs *[]ssa.Instruction) bool {
+		for _, ref := range *refs {
+			if ia, ok := ref.(*ssa.IndexAddr); ok {
+				for _, rr := range *ia.Referrers() {
+					if st, ok := rr.(*ssa.Store); ok && st.Addr == ssa.Value(ia) && rec(st.Val) && (st.Block() == from || reach[st.Block()]) {
+						return true
+					}
+				}
+			}
+		}
+		return false
+	}
+	rec = func(x ssa.Value) bool {
+		if x == nil {
+			return false
+		}
+		if x == v {
+			return true
+		}
+		if done, ok := memo[x]; ok {
+			return done
+		}
+		memo[x] = false // cycles: not proven
+		res := rec1(x)
+		memo[x] = res
+		return res
+	}
+	rec1 = func(x ssa.Value) bool {
+		switch y := x.(type) {
+		case *ssa.Phi:
+			n := 0
+			for i, e := range y.Edges {
+				pred := y.Block().Preds[i]
+				if !reach[pred] {
+					continue
+				}
+				n++
+				if !rec(e) {
+					return false
+				}
+			}
+			return n > 0
+		case *ssa.Slice:
+			return y.Low == nil && rec(y.X)
+		case *ssa.Alloc:
+			return elemStores(y.Referrers())
+		case *ssa.MakeSlice:
+			return elemStores(y.Referrers())
+		case *ssa.Call:
+			if b, ok := y.Call.Value.(*ssa.Builtin); ok && b.Name() == "append" {
+				for _, a := range y.Call.Args {
+					if rec(a) {
+						return true
+					}
+				}
+			}
+		case *ssa.MakeInterface:
+			return rec(y.X)
+		case *ssa.ChangeType:
+			return rec(y.X)
+		case *ssa.ChangeInterface:
+			return rec(y.X)
+		}
+		return false
+	}
+	return rec(s)
+}
+
+// onlyNilGuards: block b is reached under no condition other than "src is non-nil"
+// (src named by its access path).
+func onlyNilGuards(p *Prog, b *ssa.BasicBlock, src string) bool {
+	for _, g := range guardsOf(b) {
+		bo, ok := g.cond.(*ssa.BinOp)
+		if !ok {
+			return false
+		}
+		k, isK := bo.Y.(*ssa.Const)
+		if !isK || !k.IsNil() || strings.TrimPrefix(p.D(bo.X), "*") != strings.TrimPrefix(src, "*") {
+			return false
+		}
+		if !((bo.Op == token.NEQ && g.val) || (bo.Op == token.EQL && !g.val)) {
+			return false
+		}
+	}
+	return true
+}
+
+// pbGetterRe matches the description of a generated getter call, e.g. pb.FactV2.GetPredicate(input).
+var pbGetterRe = regexp.MustCompile(`^pb\.\w+\.Get(\w+)\((.+)\)$`)
